@@ -91,7 +91,7 @@ class CFG:
         return None
 
     def find_path_flags(self, start: Node, targets: Set[int], removed_nodes: Set[int] = frozenset(),
-                        removed_edges: Set[Tuple[int, int, str]] = frozenset()) -> Optional[List[Tuple[int, str]]]:
+                        removed_edges: Set[Tuple[int, int, str]] = frozenset(), start_vals: Optional[Dict[str, bool]] = None) -> Optional[List[Tuple[int, str]]]:
         """Like find_path, but path-sensitive in local boolean flags: names that are only ever assigned the constants
         True/False (`committed = False ... committed = True`) are tracked along the path and tests of the form
         `flag` / `not flag` only follow the feasible branch (the guard-flag cleanup idiom)."""
@@ -107,7 +107,17 @@ class CFG:
             elif nd.kind == 'stmt' and isinstance(st, (ast.AugAssign, ast.AnnAssign)) and isinstance(st.target, ast.Name):
                 assigned.setdefault(st.target.id, set()).add('?')
         flags = {k for k, v in assigned.items() if v <= {True, False}}
-        start_state = (start.id, frozenset())
+        # a local assigned exactly once from a computed value (`commit = exc_type is None`) is unknown but *fixed*: the first test of it on a
+        # path may go either way, every later test of it on that path goes the same way
+        n_assign: Dict[str, int] = {}
+        for nd in self.nodes:
+            if nd.kind == 'stmt' and isinstance(nd.stmt, ast.Assign):
+                for t in nd.stmt.targets:
+                    for el in ast.walk(t):
+                        if isinstance(el, ast.Name):
+                            n_assign[el.id] = n_assign.get(el.id, 0) + 1
+        fixed = {k for k, v in assigned.items() if v == {'?'} and n_assign.get(k) == 1}
+        start_state = (start.id, frozenset((k, v) for k, v in (start_vals or {}).items() if k in flags or k in fixed))
         prev: Dict[Tuple[int, frozenset], Tuple[Tuple[int, frozenset], str]] = {}
         seen = {start_state}
         queue = [start_state]
@@ -131,7 +141,13 @@ class CFG:
                 d = dict(val)
                 d[nd.stmt.targets[0].id] = nd.stmt.value.value
                 newval = frozenset(d.items())
+            elif nd.kind == 'stmt' and isinstance(nd.stmt, ast.Assign) and len(nd.stmt.targets) == 1 and isinstance(nd.stmt.targets[0], ast.Name) \
+                    and nd.stmt.targets[0].id in fixed:
+                d = dict(val)
+                d.pop(nd.stmt.targets[0].id, None)
+                newval = frozenset(d.items())
             want: Optional[str] = None
+            choose: Optional[Tuple[str, bool]] = None      # (fixed flag, polarity of the test): the branch taken determines its value
             if nd.kind == 'test':
                 t = nd.stmt
                 cur_vals = dict(newval)
@@ -139,13 +155,28 @@ class CFG:
                     want = 'true' if cur_vals[t.id] else 'false'
                 elif isinstance(t, ast.UnaryOp) and isinstance(t.op, ast.Not) and isinstance(t.operand, ast.Name) and t.operand.id in flags and t.operand.id in cur_vals:
                     want = 'false' if cur_vals[t.operand.id] else 'true'
+                elif isinstance(t, ast.Name) and t.id in fixed:
+                    if t.id in cur_vals:
+                        want = 'true' if cur_vals[t.id] else 'false'
+                    else:
+                        choose = (t.id, True)
+                elif isinstance(t, ast.UnaryOp) and isinstance(t.op, ast.Not) and isinstance(t.operand, ast.Name) and t.operand.id in fixed:
+                    if t.operand.id in cur_vals:
+                        want = 'false' if cur_vals[t.operand.id] else 'true'
+                    else:
+                        choose = (t.operand.id, False)
             for m, lab in self.succ[n]:
                 if m in removed_nodes or (n, m, lab) in removed_edges:
                     continue
                 if want is not None and lab in ('true', 'false') and lab != want:
                     continue
+                nv = newval
+                if choose is not None and lab in ('true', 'false'):
+                    d2 = dict(newval)
+                    d2[choose[0]] = (lab == 'true') == choose[1]
+                    nv = frozenset(d2.items())
                 # an exceptional edge leaves *before* the statement's assignment takes effect
-                st2 = (m, val if lab == 'exc' else newval)
+                st2 = (m, val if lab == 'exc' else nv)
                 if st2 in seen:
                     continue
                 seen.add(st2)
